@@ -50,7 +50,7 @@ def run_impl(case):
         exp_r = 0
         txn = []
         for t in range(case["ncycles"]):
-            pins = rnd.getrandbits(n)
+            pins = lib.bits(rnd, n)
             if style == "random":
                 addr, rstb, wstb = rnd.randrange(1 << aw), int(rnd.random() < .4), int(rnd.random() < .4)
             else:
@@ -65,7 +65,7 @@ def run_impl(case):
                     rstb, wstb = int("r" in kind), int("w" in kind)
                 else:
                     addr, rstb, wstb = rnd.randrange(1 << aw), 0, 0
-            wdata = rnd.getrandbits(dw)
+            wdata = lib.bits(rnd, dw)
             for k in range(n):
                 ctx.set(dut.pins[k].i, (pins >> k) & 1)
             ctx.set(bus.addr, addr); ctx.set(bus.r_stb, rstb); ctx.set(bus.w_stb, wstb); ctx.set(bus.w_data, wdata)
